@@ -370,6 +370,8 @@ func main() {
 			runExhaust(r)
 		case "blocked":
 			runBlocked(r, tmo)
+		case "mutex-held":
+			runMutexHeld(r, tmo)
 		case "typed":
 			r.Case()
 			for _, f := range runTyped(*c.Typed, tmo) {
@@ -466,6 +468,11 @@ func main() {
 	if bad == 0 || r.Search {
 		runExhaust(r)
 		runBlocked(r, tmo)
+		for i := r.Scale(3, 25); i > 0; i-- {
+			if runMutexHeld(r, tmo) {
+				break
+			}
+		}
 		m := r.Scale(30, 400)
 		for i := 0; i < m; i++ {
 			c := Case{Kind: "conc", Cap: r.R.Pick(1, 4, 64, 1024), N: r.R.Pick(10, 100, 1000), G: r.R.Range(2, 8), Seed: r.R.U64()}
